@@ -389,6 +389,15 @@ def optimize_circuit(seq):
                         # ops, they are merged on the wire they act on
                         i += 1
                         continue
+                    # on the wires of the measured parameters both ops depend on, nothing must
+                    # sit between them either (e.g., a new measurement of that mode)
+                    if any(
+                        a in qq and b in qq and qq.index(b) != qq.index(a) + 1
+                        for kk, qq in grid.items()
+                        if kk != k
+                    ):
+                        i += 1
+                        continue
                     op = a.op.merge(b.op)
                     merged = None if op is None else Command(op, a.reg)
                     # the same Commands also sit on the wires of the measured parameters
